@@ -385,6 +385,10 @@ pub fn c20(tier: &str) -> Report {
     }
     let t = one!("bincode standard() / String identity", BincodeCodec(bincode::config::standard()), BincodeWire, sids(), true);
     f11.extend(t.unbounded_len);
+    // non-default configurations: the codec decodes with what it was built with
+    one!("bincode standard().with_big_endian() / integer identity", BincodeCodec(bincode::config::standard().with_big_endian()), BincodeBeWire, nids(), true);
+    one!("bincode legacy() / integer identity", BincodeCodec(bincode::config::legacy()), BincodeLegacyWire, nids(), true);
+    one!("bincode legacy() / byte-field identity", BincodeCodec(bincode::config::legacy()), BincodeLegacyWire, bids(), true);
     // F11: demonstrate the abort in a child process
     let mut demo = Vec::new();
     if let Ok(exe) = std::env::current_exe() {
